@@ -437,6 +437,13 @@ def corpus():
     add("cache-number", {"target.py": F1, "c.json": "1"}, ["-C", "c.json"])
     add("exclude-invalid-regex", {"target.py": F1}, ["-x", "("])
     add("exclude-import-invalid-regex", {"target.py": "import os\n" + F1}, ["-F", "[a-"])
+    # round 5 (seeded C07-m14): class bases that WRAP an un-nameable expression (the initialiser heuristics name every base)
+    pre = "import enum\nfrom typing import NamedTuple\nRed = Blue = 1\nglob = [1]\ndef mk(a):\n    return a\n"
+    for i, b in enumerate(["[Red, Blue][0]", "(Red, Blue)[0].inner", "[Red][0], enum.Enum", "mk(Red + Blue).attr", "(Red or Blue).x, NamedTuple",
+                           "{1: Red}[1]", "*[Red][0:1]", "(lambda: Red)().base", "f'{Red}'.join", "(Red if glob else Blue).q[0]", "(yield_ := Red).w",
+                           "-Red.real", "[r for r in glob][0]", "mk(a=[Red])"]):
+        add(f"class-base-wraps-unnameable:{i}", {"target.py": pre + f"class Colour({b}):\n    RED = 1\n    x = glob\n\ndef use(c):\n    return Colour(c).RED\n"})
+        add(f"class-base-wraps-unnameable:{i}:with-init", {"target.py": pre + f"class Colour({b}):\n    def __init__(self, v):\n        self.v = v.w\n"})
     add("K7-class", {"target.py": ANN + "@rattr_results(calls=[('f', (['a'], ['b']))])\nclass C:\n    def __init__(self, a):\n        pass\n"})
     add("exclude-invalid-regex-class-first", {"target.py": "class C:\n    pass\n"}, ["-x", "("])
     add("class-after-function-of-same-name", {"target.py": "def C(a):\n    return a.x\nclass C:\n    def __init__(self, q):\n        self.q = q\n"})
